@@ -597,7 +597,7 @@ class _Gen(object):
         r = self.rng
         m = self.m
         pad = ' ' * indent
-        kind = r.choice(['if', 'if-else', 'try', 'with', 'for', 'try-finally', 'while'])
+        kind = r.choice(['if', 'if-else', 'try', 'with', 'for', 'try-finally', 'while', 'match', 'except', 'match'])
         m.features.add('wrap:' + kind)
         if kind == 'if':
             m.emit(pad + r.choice(['if True:', 'if 1 + 1 == 2:', 'if not FLAG:']))
@@ -622,6 +622,16 @@ class _Gen(object):
             emit_inner(indent + 4)
         elif kind == 'with':
             m.emit(pad + 'with CTX:')
+            emit_inner(indent + 4)
+        elif kind == 'match':
+            # definitions directly inside a `case` block (ast.match_case is neither a statement nor an expression)
+            m.emit(pad + r.choice(['match 1:', 'match (1, 2):', 'match FLAG:']))
+            m.emit(pad + '    case _:')
+            emit_inner(indent + 8)
+        elif kind == 'except':
+            m.emit(pad + 'try:')
+            m.emit(pad + '    raise KeyError(1)')
+            m.emit(pad + 'except KeyError:')
             emit_inner(indent + 4)
         elif kind == 'for':
             m.emit(pad + 'for _i in range(1):')
